@@ -108,6 +108,7 @@ def showBody : BodyObs → String
   | .none => "n"
   | .raw b => "r" ++ toString b
   | .form kvs => "f" ++ showKvs kvs
+  | .marsh xml b => (if xml then "x" else "j") ++ toString b
 
 def showLog (l : List Ev) : String :=
   if l.isEmpty then "_" else ",".intercalate (l.map fun e => toString e.1 ++ "." ++ toString e.2.1 ++ "." ++ toString e.2.2)
